@@ -494,8 +494,12 @@ def specialise(t, cond, _memo=None):
 
 
 def with_heap(I, env):
-    """environment in which references to summarised lists / dictionaries evaluate to their concrete contents"""
-    def hook(ref, e):
+    """Environment in which summaries evaluate concretely: references to summarised lists / dictionaries give their
+    contents, loop summaries are *run* (index, loop-carried values stepped iteration by iteration, stop conditions),
+    values that survive a loop ('loopout') are those of its last iteration."""
+    out = dict(env)
+
+    def ref_hook(ref, e):
         o = I.heap.get(ref.oid)
         if isinstance(o, ListObj):
             vals = eval_items(o.items, e)
@@ -509,15 +513,78 @@ def with_heap(I, env):
                     d[evaluate(k, e)] = evaluate(v, e)
             return d
         raise CannotEval(repr(ref))
-    out = dict(env)
-    out["__ref__"] = hook
+
+    def sym_hook(t, e):
+        if t.kind == "loopout" and t.info and t.info[0] in I.loops:
+            L = I.loops[t.info[0]]
+            final = run_loop(L, e, [])[1]
+            name = t.name.split(":", 1)[1] if ":" in t.name else None      # symbols are interned by name across runs
+            if name in L.carried and L.carried[name][3] in final:
+                return final[L.carried[name][3]]
+        raise CannotEval(repr(t))
+
+    def op_hook(t, e):
+        if t.op == "listsummary":
+            items = []
+            for a in t.args:
+                if isinstance(a, Op) and a.op == "rep":
+                    L = I.loops.get(a.args[0].v)
+                    if L is None:
+                        raise CannotEval(repr(a)[:80])
+                    items.append(("rep", L, a.args[1], a.args[2]))
+                elif isinstance(a, Op) and a.op == "guarded":
+                    items.append(("v", a.args[1], a.args[0]))
+                else:
+                    items.append(("v", a, TRUE))
+            return eval_items(items, e)
+        raise CannotEval(repr(t)[:120])
+    out["__ref__"] = ref_hook
+    out["__sym__"] = sym_hook
+    out["__op__"] = op_hook
     return out
 
 
+def run_loop(L, env, group, cap=4096):
+    """Run one loop summary concretely.  Returns (values produced by the `group` rep items, in order; final values of
+    the loop-carried locations keyed by location)."""
+    out = []
+    lvs = getattr(L, "lv", {})
+    state = {}
+    for name, (init, nxt, d, w) in L.carried.items():
+        state[w] = evaluate(init, env)
+    trip = None
+    if L.kind != "while":
+        trip = evaluate(L.trip, env)
+    i = 0
+    while True:
+        if i > cap:
+            raise CannotEval("loop %d does not end within %d iterations" % (L.lid, cap))
+        e2 = dict(env)
+        e2[L.idx] = i
+        for w, v in state.items():
+            if w in lvs:
+                e2[lvs[w]] = v
+        if trip is not None:
+            if i >= trip:
+                break
+        elif not bool(evaluate(L.cond, e2)):
+            break
+        for g in group:
+            if bool(evaluate(g[3], e2)):
+                out.append(evaluate(g[2], e2))
+        stop = any(bool(evaluate(sc, e2)) for sc in L.stops)
+        new_state = {}
+        for name, (init, nxt, d, w) in L.carried.items():
+            new_state[w] = evaluate(nxt, e2)
+        state = new_state
+        if stop:
+            break
+        i += 1
+    return out, state
+
+
 def eval_items(items, env, cap=4096):
-    """Concrete value of a summarised list: 'rep' items are expanded by running their loop's summary (condition / trip
-    count, per-iteration guard and element, stop conditions) for i = 0, 1, ...  Raises CannotEval when a summary has
-    no closed form in the loop index."""
+    """Concrete value of a summarised list: 'rep' items are expanded by running their loop's summary."""
     out = []
     k = 0
     while k < len(items):
@@ -527,6 +594,15 @@ def eval_items(items, env, cap=4096):
                 v = it[1]
                 if isinstance(v, Op) and v.op == "splat":
                     out.extend(evaluate(v.args[0], env))
+                elif isinstance(v, Op) and v.op.startswith("listmut:"):
+                    # an in-place operation recorded at this point of the list's history
+                    how = v.op[len("listmut:"):]
+                    pos = [evaluate(a, env) for a in v.args if not (isinstance(a, Op) and a.op == "kv")]
+                    kw = {evaluate(a.args[0], env): evaluate(a.args[1], env) for a in v.args if isinstance(a, Op) and a.op == "kv"}
+                    try:
+                        getattr(out, how)(*pos, **kw)
+                    except (IndexError, ValueError) as e:
+                        raise CannotEval("list.%s raises %s" % (how, type(e).__name__))
                 else:
                     out.append(evaluate(v, env))
             k += 1
@@ -536,28 +612,7 @@ def eval_items(items, env, cap=4096):
         while k < len(items) and items[k][0] == "rep" and items[k][1] is L:
             group.append(items[k])
             k += 1
-        if len(getattr(L, "ctx", ()) or ()) > 0 and False:
-            raise CannotEval("nested loop")
-        trip = None
-        if L.kind != "while":
-            trip = evaluate(L.trip, env)
-        i = 0
-        while True:
-            if i > cap:
-                raise CannotEval("loop %d does not end within %d iterations" % (L.lid, cap))
-            e2 = dict(env)
-            e2[L.idx] = i
-            if trip is not None:
-                if i >= trip:
-                    break
-            elif not bool(evaluate(L.cond, e2)):
-                break
-            for g in group:
-                if bool(evaluate(g[3], e2)):
-                    out.append(evaluate(g[2], e2))
-            if any(bool(evaluate(sc, e2)) for sc in L.stops):
-                break
-            i += 1
+        out.extend(run_loop(L, env, group, cap)[0])
     return out
 
 
